@@ -148,6 +148,35 @@ fn sweep_triples(rep: &mut Report, name: &str, years: &[(i64, i64)], use_dt: boo
     });
 }
 
+/// read a day back immediately after reading back another day (same thread): the answer must not
+/// depend on the question asked before
+fn case_day_after(pred: i64, day: i64, use_dt: bool, acc: &mut Acc) {
+    if !(cal::MIN_DAY..=cal::MAX_DAY).contains(&pred) {
+        return;
+    }
+    let read = |d: i64| -> Out<(i32, u32, u32)> {
+        let ts = (d - cal::DAYS_TO_1970) * 86_400;
+        if use_dt {
+            call(|| DateTime::from_timestamp(ts).as_ymd())
+        } else {
+            match date_from_day(d) {
+                Out::Val(x) => call(|| x.as_ymd()),
+                Out::Err(e) => Out::Err(e),
+                Out::Panic(p) => Out::Panic(p),
+            }
+        }
+    };
+    acc.transitions += 2;
+    acc.states += 1;
+    let _ = read(pred);
+    let got = read(day);
+    let (ey, em, ed) = cal::ymd(day);
+    match &got {
+        Out::Val((y, m, d)) if (*y as i64, *m, *d) == (ey, em, ed) => acc.branch("read-after-another-day"),
+        other => acc.violation(if use_dt { "DateTime::as_ymd" } else { "Date::as_ymd" }, "readback-depends-on-the-previous-call", json!({"day": day, "pred": pred, "datetime": use_dt}), format!("({}, {}, {})", ey, em, ed), other.show()),
+    }
+}
+
 pub fn run(ctx: &Ctx) -> i32 {
     let mut rep = Report::new(ctx);
     rep.rule = "states = distinct day numbers / (y,m,d) triples enumerated; transitions = real from_timestamp/as_ymd/from_ymd calls compared with the walker / validity oracle; non-trivial = days at month boundaries (d = 1 or >= 28) plus invalid triples (refusal expected)".into();
@@ -155,7 +184,7 @@ pub fn run(ctx: &Ctx) -> i32 {
         "a day number is reached through Date/DateTime::from_timestamp and read through timestamp() (bound to the model by C03)".into(),
         "reference calendar: month-length table + Gregorian leap rule walker, cross-checked against the Hinnant closed forms at every enumerated day".into(),
     ];
-    rep.require(&["bc", "ad", "leap-day", "era-boundary", "triple-valid", "triple-refused"]);
+    rep.require(&["bc", "ad", "leap-day", "era-boundary", "triple-valid", "triple-refused", "read-after-another-day"]);
     let full = (cal::MIN_DAY, cal::MAX_DAY);
     let checked = crate::engine::PROFILE == "checked";
     // (a) day numbers
@@ -173,6 +202,14 @@ pub fn run(ctx: &Ctx) -> i32 {
             sweep_days(&mut rep, &format!("days:window{}:DateTime", k), lo, hi, true);
         }
     }
+    // (a2) history independence: landmark days right after a day at one of the code's own distances
+    let hdays: Vec<i64> = ab::days_b().into_iter().chain([0, 1, 730_179, 719_162, 719_468, 146_097, -146_097]).collect();
+    let dist = ab::dist_b();
+    let (nh, ndist) = (hdays.len() as u64, dist.len() as u64);
+    rep.sweep("days read back right after another day: landmark days x DIST_B x {Date, DateTime}", nh * ndist * 2, "distances are the epoch shifts and cycle lengths that occur in the conversion code", |i, acc| {
+        let d = hdays[(i / 2 % nh) as usize];
+        case_day_after(d + dist[(i / (2 * nh)) as usize], d, i % 2 == 1, acc);
+    });
     // (b) triples
     if ctx.thorough && checked {
         sweep_triples(&mut rep, "triples:all-years:Date", &[(-5_879_612, 5_879_612)], false);
@@ -190,6 +227,10 @@ pub fn run(ctx: &Ctx) -> i32 {
 
 pub fn replay(op: &str, case: &Value, acc: &mut Acc) -> bool {
     let use_dt = case["datetime"].as_bool().unwrap_or(false);
+    if let (Some(day), Some(pred)) = (case["day"].as_i64(), case["pred"].as_i64()) {
+        case_day_after(pred, day, use_dt, acc);
+        return true;
+    }
     if let Some(day) = case["day"].as_i64() {
         case_day(&Walker::at(day), use_dt, acc);
         return true;
